@@ -59,6 +59,10 @@ def cases(tier, seed):
             "order": int(rng.integers(0, len(ORDERS))), "layout": ux.LAYOUTS[int(rng.integers(0, 4))] if rng.random() < 0.5 else "C",
             "orphans": int(rng.choice([0, 0, 0, 1, 3])), "supplied_edge_nodes": bool(rng.random() < 0.25), "xseed": int(rng.integers(0, 10**6)),
         }
+    # faces with very many corners (counts beyond one byte) next to small ones
+    for k in ([256, 300, 720] if tier == "quick" else [255, 256, 257, 300, 511, 512, 720, 1000, 4096]):
+        yield {"kind": "mesh", "mesh": {"family": "capped_ring", "k": k, "ops": [["renumber", k]] if k % 2 == 0 else []}, "extra_width": 0, "order": k % len(ORDERS), "layout": "C", "orphans": 0,
+               "supplied_edge_nodes": False, "xseed": k}
     from .. import samplefiles
 
     for i, (fkind, rel, kw) in enumerate(samplefiles.netcdf_files(tier)):
